@@ -207,11 +207,17 @@ fn op_site(op: &str) -> &'static str {
         _ => "DeterministicFitnessProportional",
     }
 }
+/// Operators whose `select` reads objective values.
+fn uses_fitness(op: &str) -> bool {
+    matches!(op, "roulette" | "sus" | "tournament" | "linrank" | "exprank" | "debest" | "dectb" | "iwo")
+}
 /// Outside the property's quantifier: no population, an unevaluated individual in the current
-/// population, a parameter outside its documented domain (negative/NaN offset, base ∉ [ε,1), y ∉ {1,2}).
+/// population of an operator that selects by fitness, a parameter outside its documented domain
+/// (negative/NaN offset, base ∉ [ε,1), y ∉ {1,2}).
 fn sel_malformed(op: &[Sx], pops: &[Sx]) -> bool {
     if pops.is_empty() { return true; }
-    if pops[0].head().unwrap().1.iter().any(|i| i.items().unwrap()[1].atom() == Some("u")) { return true; }
+    if uses_fitness(op[0].atom().unwrap())
+        && pops[0].head().unwrap().1.iter().any(|i| i.items().unwrap()[1].atom() == Some("u")) { return true; }
     match op[0].atom().unwrap() {
         "roulette" | "sus" => { let o = op[2].float().unwrap(); !(o >= 0.0) || !o.is_finite() }
         "exprank" => { let b = op[2].float().unwrap(); !(f64::EPSILON..1.0).contains(&b) }
@@ -224,6 +230,7 @@ fn sel_malformed(op: &[Sx], pops: &[Sx]) -> bool {
 /// exact-arithmetic theorems ("up to rounding"); only the model's prediction is compared.
 fn sel_extreme(op: &[Sx], pops: &[Sx]) -> bool {
     let big = |v: f64| v.is_finite() && v.abs() > 1e150;
+    if pops[0].head().unwrap().1.iter().any(|i| i.items().unwrap()[1].atom() == Some("u")) { return false; }
     if pops[0].head().unwrap().1.iter().any(|i| i.items().unwrap()[1].float().map(big).unwrap_or(false)) { return true; }
     match op[0].atom().unwrap() {
         "roulette" | "sus" => big(op[2].float().unwrap()),
@@ -251,8 +258,8 @@ fn main() {
     };
     let mut rng = Sm::new(a.seed);
     let below = pop_str(900, &[Some(7.0), Some(-3.0)]);
-    let grid = [-7.25, -1.5, -1.5, 0.0, 0.0, 1.0, 2.0, 2.0, 3.5, 1e6, f64::INFINITY];
-    let fin_grid = [-7.25, -1.5, -1.5, 0.0, 0.0, 1.0, 2.0, 2.0, 3.5, 1e6];
+    let grid = [-7.25, -1.5, -1.5, 0.0, -0.0, 1.0, 2.0, 2.0, 3.5, 1e6, f64::INFINITY];
+    let fin_grid = [-7.25, -1.5, -1.5, 0.0, -0.0, 1.0, 2.0, 2.0, 3.5, 1e6];
     let offsets = [0.0, 0.1, 1.0, 2.5];
     let bases = [0.1, 0.5, 0.9, f64::EPSILON];
     let seeds_per = if a.thorough { 40 } else { 20 };
@@ -371,6 +378,68 @@ fn main() {
             _ => format!("(op debest 1)"),
         };
         emit(tagged("sel", [op, format!("(rng seed {})", rng.below(1 << 32)), st]));
+    }
+    // 7. operators that do not read objective values, on unevaluated / partly evaluated populations
+    //    (inside the property: selection before evaluation), on top of 0..3 other populations
+    for _ in 0..(if a.thorough { 4000 } else { 700 }) {
+        let size = rng.below(7) as usize;
+        let mode = rng.below(3);
+        let objs: Vec<Option<f64>> = (0..size).map(|_| match mode {
+            0 => Option::None,
+            1 => if rng.chance(1, 2) { Option::None } else { Some(*rng.pick(&grid)) },
+            _ => Some(*rng.pick(&grid)),
+        }).collect();
+        let mut stack = vec![pop_str(0, &objs)];
+        for d in 0..rng.below(4) {
+            let k = rng.below(4) as usize;
+            let o: Vec<Option<f64>> = (0..k).map(|_| if rng.chance(1, 3) { Option::None } else { Some(*rng.pick(&grid)) }).collect();
+            stack.push(pop_str(100 * (d + 1), &o));
+        }
+        let n = rng.below(size as u64 + 2);
+        let op = match rng.below(6) {
+            0 => "(op all)".to_string(),
+            1 => "(op none)".to_string(),
+            2 => format!("(op clone {n})"),
+            3 => format!("(op fullyrandom {})", if rng.chance(1, 4) { 20 + rng.below(40) } else { n }),
+            4 => format!("(op rwor {n})"),
+            _ => format!("(op derand {})", 1 + rng.below(2)),
+        };
+        emit(tagged("sel", [op, format!("(rng seed {})", rng.below(1 << 32)), tagged("stack", stack)]));
+    }
+    // 8. larger populations (12..40 members, ties), counts around the population size and well above it,
+    //    stacks of height 1..4
+    for i in 0..(if a.thorough { 2500 } else { 420 }) {
+        let size = 12 + rng.below(29) as usize;
+        let objs: Vec<Option<f64>> = (0..size).map(|_| Some(match i % 3 {
+            0 => 1.0 + rng.below(6) as f64,
+            1 => (rng.below(9) as f64) - 4.0,
+            _ => (rng.unit() - 0.5) * 100.0,
+        })).collect();
+        let mut stack = vec![pop_str(0, &objs)];
+        for d in 0..rng.below(4) {
+            let k = rng.below(3) as usize;
+            let o: Vec<Option<f64>> = (0..k).map(|_| Some(*rng.pick(&fin_grid))).collect();
+            stack.push(pop_str(100 * (d + 1), &o));
+        }
+        let sz = size as u64;
+        let n = *rng.pick(&[0, 1, sz - 1, sz, sz + 1, 3 * sz]);
+        let op = match i % 14 {
+            0 => "(op all)".to_string(),
+            1 => format!("(op fullyrandom {n})"),
+            2 => format!("(op rwor {})", *rng.pick(&[0, 1, sz / 2, sz - 1, sz, sz + 1])),
+            3 => format!("(op roulette {n} {})", fx(*rng.pick(&offsets))),
+            4 => format!("(op sus {} {})", n.max(1), fx(*rng.pick(&offsets))),
+            5 => format!("(op linrank {n})"),
+            6 => format!("(op exprank {n} {})", fx(*rng.pick(&bases))),
+            7 => format!("(op tournament {} {})", 1 + rng.below(6), *rng.pick(&[1, 2, sz / 2, sz - 1, sz, sz + 1])),
+            8 => format!("(op tournament {} {sz})", 1 + rng.below(6)),
+            9 => format!("(op derand {})", 1 + rng.below(2)),
+            10 => format!("(op debest {})", 1 + rng.below(2)),
+            11 => format!("(op dectb {})", 1 + rng.below(2)),
+            12 => format!("(op iwo {} {})", rng.below(3), 2 + rng.below(6)),
+            _ => format!("(op clone {n})"),
+        };
+        emit(tagged("sel", [op, format!("(rng seed {})", rng.below(1 << 32)), tagged("stack", stack)]));
     }
     // 6. malformed stream (outside the quantifier): unevaluated members, empty stack, negative / NaN
     //    offset, base outside (0,1), y outside {1,2}
